@@ -1,6 +1,10 @@
 SPEC = {
     "corr": [{"kind": "sflow", "quick": 40000, "thorough": 600000},
-             {"kind": "dissect", "quick": 40000, "thorough": 600000}],
+             {"kind": "dissect", "quick": 40000, "thorough": 600000},
+             # the real sFlow workers (1..64 goroutines, each with its own decoder) on the same kind of datagrams: every published
+             # payload must be the solo decode of its datagram — decoders that share state show only under concurrency
+             {"kind": "pipeline", "quick": 48, "thorough": 1200, "runner": {"pkg": "./vflow", "test": "TestVerifPipeline", "race": False},
+              "env": {"VERIF_PIPE_PROTO": "sflow"}}],
     "rule": "sFlow v5 datagrams encoded from an abstract datagram by the harness's own XDR encoder: 0..5 samples of "
             "flow / counter / expanded / unknown / enterprise type, 0..4 records each (raw header Ethernet(+-802.1Q)/IPv4/IPv6 x "
             "TCP/UDP/ICMP(1 and 58 after either network layer), all 24 layer combinations incl. header protocol 11/12, every header field over its full range incl. the version nibble and the three TCP reserved bits, IPv4 options in a quarter of the IPv4 headers (IHL 6..15: random octets, real options, octets that read as a transport header), header lengths 0..1500 and XDR padding; "
